@@ -30,6 +30,8 @@ export const STATEMENTS = {
   boundTagParam: (N) => `import ${N}_C from "probe:kid";\nexport function ${N}(Pq = ${N}_C) { return <Pq x={g0}>t</Pq>; }`,
   reassignModuleLevelVar: (N) => `import Box_${N} from "probe:kid";\nvar ${N}_x = "prev";\n${N}_x = <Box_${N}>{${N}_x}</Box_${N}>;\nexport const ${N} = () => ${N}_x;`,
   paramNamedH: (N) => `import ${N}_C from "probe:kid";\nexport const ${N} = () => ((Box, h) => <Box>{h()}</Box>)(${N}_C, () => g0);`,
+  // a module-level variable that other module-level code also reassigns to JSX: each assignment captures its own previous value
+  reassignModuleLevelSharedVar: (N) => `import Box_${N} from "probe:kid";\nvar sharedM = "prev";\nsharedM = <Box_${N}>{sharedM}</Box_${N}>;\nconst ${N}_v = sharedM;\nexport const ${N} = () => ${N}_v;`,
   reassignShared: (N) => `let shared = "prev";\nexport const ${N} = () => { shared = <A0>{shared}</A0>; return shared; };`,
   divCallChild: (N) => `export const ${N} = () => <div>{f0()}</div>;`,
   spanIdentChild: (N) => `export const ${N} = () => <span>{g0}</span>;`,
@@ -74,6 +76,7 @@ export const DISTRACTORS = {
   directiveOther: (k) => `const d${k}r = <div v-bar={g8} />;`,
   bracelessLoops: (k) => `let d${k}t = 0;\nfor (const i of [1, 2]) d${k}t += i;\nwhile (d${k}t > 100) d${k}t--;\ndo d${k}t++; while (d${k}t < 0);\nfor (const key in {}) d${k}t++;\nfor (let i = 0; i < 1; i++) d${k}t += i;`,
   stringStatement: (k) => `"marker ${k}";`,
+  reassignSharedMSameList: (k) => `var sharedM = "d${k}";\nsharedM = <A9>{sharedM}</A9>;`,
   reassignSharedElsewhere: (k) => `function d${k}rs() { shared = <A9>{shared}</A9>; return shared; }`,
   lateFragmentImport: (k) => `import { Fragment } from "vue";\nconst d${k}fr = Fragment;`,
   fragWithLocalIdent: (k) => `let d${k}li = 1;\nconst d${k}fi = <>{d${k}li}</>;\nfunction d${k}ff(Row, rows) { return <><Row>{rows}</Row></>; }`,
@@ -179,7 +182,7 @@ export async function check(group, records) {
     if ((comp.n_err > 0) !== (alone.n_err > 0)) { out.push(violated({ ...base, oracle: 'same diagnostics', sig: `C10/diagnostics-differ/${spec.names[i]}`, detail: { composed: comp.diags, alone: alone.diags } })); continue; }
     // hook: the remembered assignment target may only be consumed by the reassign family
     const takes = ((comp.hooks || {}).events || []).filter((e) => /^iife_take left=(?!-)/.test(e));
-    if (takes.length && !spec.names.some((x) => x.startsWith('reassign')) && !/reassign(Shared)?Elsewhere/.test(group.feature)) {
+    if (takes.length && !spec.names.some((x) => x.startsWith('reassign')) && !/reassign(Shared)?Elsewhere|reassignSharedMSameList/.test(group.feature)) {
       out.push(violated({ ...base, oracle: 'remembered assignment target consumed only by its own JSX (hook)', sig: `C10/hook/stale-assignment-target/${spec.names[i]}`, detail: takes })); continue;
     }
     const va = await valueOf(alone, spec, `s${i}`);
